@@ -220,9 +220,12 @@ func c01Gen(runSeed uint64, tier string) *gen.Scenario {
 	if g.Chance(0.35) {
 		sc.Knobs["faults"] = int64(simstore.FaultOpenErr | simstore.FaultIterErr)
 	}
-	if g.Chance(0.1) {
+	if x := g.Intn(100); x < 10 {
 		// directed shape: same relation names with different depths on several layered types
 		sc.Model, sc.Tuples, sc.Requests = g.LayeredSameName()
+	} else if x < 18 {
+		// directed shape: deep self-recursive relations over many objects
+		sc.Model, sc.Tuples, sc.Requests = g.DeepRecursive()
 	}
 	return sc
 }
@@ -249,10 +252,19 @@ func c01Exec(t *testing.T, sc *gen.Scenario, trace bool) *harness.Outcome {
 		faulty := sc.Knob("faults", 0) != 0
 		for i, rq := range sc.Requests {
 			ctx, cancel := context.WithTimeout(simrt.WithReq(context.Background(), fmt.Sprintf("r%d", i)), 3*time.Second)
+			firedBefore := e.FiredTotal()
 			allowed, err := timed(e, fmt.Sprintf("Check(%s#%s@%s)", rq.Obj, rq.Rel, rq.User), func() (bool, error) { return chk(ctx, rq) })
 			cancel()
 			e.Run.Log("resp", fmt.Sprintf("r%d allowed=%v err=%v", i, allowed, err != nil))
+			if faulty && err == nil && !e.Hung {
+				e.SigExtra = e.FaultTag(firedBefore, allowed, func() (bool, error) {
+					ctx, cancel := context.WithTimeout(simrt.WithReq(context.Background(), fmt.Sprintf("r%dnofault", i)), 3*time.Second)
+					defer cancel()
+					return chk(ctx, rq)
+				})
+			}
 			e.JudgeCheck("v1", rq, stateFor(sc, rq), allowed, err, faulty)
+			e.SigExtra = ""
 			if out.Violation != nil {
 				return
 			}
